@@ -103,6 +103,14 @@ def stealPinned : List Bytes → Bytes
   | [w] => w
   | w1 :: w2 :: rest => (w2.take w1.length ++ w1.drop w2.length) ++ w2 ++ rest.flatten
 
+/-- ReadFrom while the channel is being closed: `closeAt = j > 0` means Close runs inside the reader's
+    j-th Read call. Chunks read before that are written; the chunk of the j-th Read is refused by the
+    closed check of the low-level write and the call returns the close error; `n` counts what was read.
+    Result: (chunks written, n, the close error was returned). Chunks are non-empty. -/
+def readFromClosing (chunks : List Bytes) (closeAt : Nat) : List Bytes × Nat × Bool :=
+  if closeAt = 0 ∨ closeAt > chunks.length then (chunks, chunks.flatten.length, false)
+  else (chunks.take (closeAt - 1), (chunks.take closeAt).flatten.length, true)
+
 /-- utils.CountOf -/
 def countOf (bs : List Bytes) : Nat := (bs.map List.length).foldl (· + ·) 0
 
